@@ -715,6 +715,20 @@ def _selector_rules(ctx, prog, R, sel: FunctionInfo):
         last_ok = last is not None and call_name(last) in ("np.minimum", "min") and up.id in {n.id for n in ast.walk(last) if isinstance(n, ast.Name)} and (
             "LOG.X_max_idx + 1" in last_txt or "(1 + LOG.X_max_idx)" in last_txt or "LOG.Xn" in last_txt or "len(" in last_txt or ".shape[0]" in last_txt
         )
+        if not (has_max_clamp and has_min_clamp and last_ok):
+            # the clamps may be written as a case distinction: the size only depends on the *order* of five integers (points
+            # within the radius W, n_train_max, n_train_min, buffer_ntrain, logged rows), so it is evaluated for all of
+            # {0..3}^5 with a small interpreter over min / max / comparisons and compared with
+            # min(max(n_min, n_max - buffer, min(n_max, W)), logged)
+            verdict = _size_by_cases(prog, sel, up.id)
+            if verdict is True:
+                ctx.ok(sel, chain[-1][2] if chain else ret, "training-set size equals min(max(n_min, n_max - buffer, min(n_max, W)), logged) for every ordering of its inputs")
+                return
+            if isinstance(verdict, tuple):
+                env_, got_, want_ = verdict
+                ctx.fail(sel, chain[0][2] if chain else ret, f"the training-set size is not min(max(n_train_min, n_train_max - buffer, min(n_train_max, W)), logged rows): for {env_} it is {got_}, expected {want_} "
+                         + ("(the configured maximum is exceeded)" if got_ > want_ else "(fewer points than configured)"), construct="training-set size by cases")
+                return
         ctx.check(has_max_clamp, sel, chain[0][2] if chain else ret, "n <= n_train_max clamp present", "training-set size is not clamped from above by n_train_max", construct="n_train_max clamp")
         ctx.check(has_min_clamp, sel, chain[0][2] if chain else ret, "n >= n_train_min clamp present", "training-set size is not clamped from below by n_train_min", construct="n_train_min clamp")
         ctx.check(bool(last_ok), sel, chain[-1][2] if chain else ret, "final clamp by the number of logged rows", "the last definition of the training-set size is not a minimum with the number of logged rows", construct=f"final n = {canon(last) if last is not None else '?'}")
@@ -725,6 +739,95 @@ def _selector_rules(ctx, prog, R, sel: FunctionInfo):
             ctx.check(imax <= imin < len(chain) - 1 or imax < imin, sel, chain[imin][2], "clamp order max -> min -> available", "size clamps are applied in an order that lets the maximum override the configured minimum")
     else:
         ctx.undecided("selector upper bound is not a local name")
+
+
+def _size_by_cases(prog, sel, up_name):
+    """-> True (equal to the reference for all orderings), (env, got, want) for a counterexample, None if the code uses
+    something the little interpreter does not know."""
+    import itertools
+
+    class _U(Exception):
+        pass
+
+    def ev(e, env):
+        if isinstance(e, ast.Constant) and isinstance(e.value, (int, float)) and not isinstance(e.value, bool):
+            return e.value
+        c = canon(e)
+        if c == "OPT[n_train_max]":
+            return env["NMAX"]
+        if c == "OPT[n_train_min]":
+            return env["NMIN"]
+        if c == "OPT[buffer_ntrain]":
+            return env["BUF"]
+        if c == "LOG.X_max_idx":
+            return env["NAV"] - 1
+        if isinstance(e, ast.Name):
+            if e.id in env:
+                return env[e.id]
+            raise _U(e.id)
+        if isinstance(e, ast.Call) and call_name(e) in ("np.sum", "sum") and e.args and any(isinstance(n, ast.Compare) for n in ast.walk(e.args[0])):
+            return env["W"]
+        if isinstance(e, ast.Call) and isinstance(e.func, ast.Attribute) and e.func.attr == "sum" and any(isinstance(n, ast.Compare) for n in ast.walk(e.func.value)):
+            return env["W"]
+        if isinstance(e, ast.Call) and call_name(e) in ("np.minimum", "min", "np.maximum", "max", "np.max", "np.min", "np.amax", "np.amin"):
+            args = e.args
+            if len(args) == 1 and isinstance(args[0], (ast.List, ast.Tuple)):
+                args = args[0].elts
+            vals = [ev(a, env) for a in args]
+            if len(vals) < 2:
+                raise _U(c)
+            return min(vals) if call_name(e) in ("np.minimum", "min", "np.min", "np.amin") else max(vals)
+        if isinstance(e, ast.Call) and call_name(e) in ("int", "np.int64", "np.asarray") and len(e.args) == 1:
+            return ev(e.args[0], env)
+        if isinstance(e, ast.BinOp) and isinstance(e.op, (ast.Add, ast.Sub)):
+            l, r = ev(e.left, env), ev(e.right, env)
+            return l + r if isinstance(e.op, ast.Add) else l - r
+        if isinstance(e, ast.Compare) and len(e.ops) == 1:
+            l, r = ev(e.left, env), ev(e.comparators[0], env)
+            op = e.ops[0]
+            return {ast.Lt: l < r, ast.LtE: l <= r, ast.Gt: l > r, ast.GtE: l >= r, ast.Eq: l == r, ast.NotEq: l != r}[type(op)]
+        if isinstance(e, ast.BoolOp):
+            vals = [ev(v, env) for v in e.values]
+            return all(vals) if isinstance(e.op, ast.And) else any(vals)
+        if isinstance(e, ast.UnaryOp) and isinstance(e.op, ast.Not):
+            return not ev(e.operand, env)
+        raise _U(c)
+
+    def run(stmts, env):
+        for st in stmts:
+            if isinstance(st, ast.Assign) and len(st.targets) == 1 and isinstance(st.targets[0], ast.Name):
+                try:
+                    env[st.targets[0].id] = ev(st.value, env)
+                except _U:
+                    env.pop(st.targets[0].id, None)
+            elif isinstance(st, ast.If):
+                touches = any(isinstance(n, ast.Name) and isinstance(n.ctx, ast.Store) for b in (st.body, st.orelse) for s_ in b for n in ast.walk(s_))
+                try:
+                    t = ev(st.test, env)
+                except _U:
+                    if touches and any(isinstance(n, ast.Name) and n.id == up_name and isinstance(n.ctx, ast.Store) for b in (st.body, st.orelse) for s_ in b for n in ast.walk(s_)):
+                        raise
+                    continue
+                run(st.body if t else st.orelse, env)
+            elif isinstance(st, ast.Return):
+                break
+        return env
+
+    body = [b for b in sel.node.body]
+    try:
+        for W, NMAX, NMIN, BUF, NAV in itertools.product(range(4), range(4), range(4), range(4), range(1, 5)):
+            if W > NAV:
+                continue  # the points within the radius are among the logged ones
+            env = {"W": W, "NMAX": NMAX, "NMIN": NMIN, "BUF": BUF, "NAV": NAV}
+            run(body, env)
+            if up_name not in env:
+                return None
+            want = min(max(NMIN, NMAX - BUF, min(NMAX, W)), NAV)
+            if env[up_name] != want:
+                return ({"within radius": W, "n_train_max": NMAX, "n_train_min": NMIN, "buffer_ntrain": BUF, "logged": NAV}, env[up_name], want)
+    except _U:
+        return None
+    return True
 
 
 def _lcb_rules(ctx, prog, R):
